@@ -218,6 +218,15 @@ def build(succ, mode, pal):
                 tmp = m.new('A')
                 xtuml.relate(w.insts[x], tmp, REL, p_succ)
                 xtuml.delete(tmp)
+        # a temporary member is spliced into the middle of every link (partners across both phrases) and deleted again
+        for x, y in enumerate(succ):
+            if y is not None and x != y:
+                xtuml.unrelate(w.insts[x], w.insts[y], REL, p_succ)
+                tmp = m.new('A')
+                xtuml.relate(w.insts[x], tmp, REL, p_succ)
+                xtuml.relate(tmp, w.insts[y], REL, p_succ)
+                xtuml.delete(tmp)
+                xtuml.relate(w.insts[x], w.insts[y], REL, p_succ)
         # relate calls that must be rejected (the end is taken) and must leave no trace
         for x, y in enumerate(succ):
             if y is not None:
